@@ -19,6 +19,7 @@ ENUM_SOURCES = {
     'LinkType': 'include/nix/base/IFeature.hpp',
     'DataType': 'include/nix/DataType.hpp',
     'Compression': 'include/nix/Compression.hpp',
+    'ObjectType': 'include/nix/ObjectType.hpp',
 }
 
 _file_cache = {}
@@ -275,6 +276,8 @@ def extract(unit, enums, sigs):
     for t_ in toks:
         if t_.k == 'id' and t_.t in (unit.get('calls') or {}):
             t_.t = unit['calls'][t_.t]; fire(ctx, 'overload-by-unit-map')
+    toks = r_template_calls(ctx, toks)
+    toks = r_brace_temporaries(ctx, toks)
     toks = r_drop_streams(ctx, toks)
     toks = r_rangefor(ctx, toks)
     scan_decls(ctx, toks)
@@ -291,6 +294,7 @@ def extract(unit, enums, sigs):
     toks = r_ctor_decl(ctx, toks)
     toks = r_ctor_calls(ctx, toks)
     toks = r_opcalls(ctx, toks)
+    toks = r_functor_calls(ctx, toks)
     toks = r_iter_methods(ctx, toks)
     toks = r_methods(ctx, toks)
     toks = r_methods(ctx, toks)      # second pass: methods on call results  f(...).g(...)
@@ -310,7 +314,13 @@ def extract(unit, enums, sigs):
         toks = rule(ctx, toks)
     body = render(toks)
     # loop contracts, keyed by loop ordinal
-    body = splice_loops(body, unit.get('loops', {}), cname)
+    no_loops = False
+    try:
+        body = splice_loops(body, unit.get('loops', {}), cname)
+    except ExtractError:
+        # the loops the contracts are written for are gone (rewritten body): units with a bounded twin job stay decidable through that job
+        if not unit.get('bounded_twin'): raise
+        no_loops = True
     dflt = unit.get('ret_default')
     if dflt is None:
         dflt = default_for(ret_c) if ret_c not in unit.get('classes', ()) or ret_c == 'NDSize' else '(%s){0}' % ret_c
@@ -321,7 +331,7 @@ def extract(unit, enums, sigs):
     ex = Extracted()
     ex.text = text; ex.cname = cname; ex.file = unit['file']; ex.lines = (line0, line1)
     ex.src_sha = sha(span); ex.gen_sha = sha(text); ex.counts = dict(ctx.counts); ex.proto = derived
-    ex.span = span
+    ex.span = span; ex.no_loops = no_loops
     return ex
 
 def default_for(ret):
